@@ -1326,6 +1326,15 @@ def call_ext(interp, dotted: str, args: List[V], kwargs: Dict[str, V], node, cc)
             # rows of the result are copies of the array: the NEW axis is the outer one
             return Term("bcast_rows", [args[0], shp.items[0]])
         return Term("broadcast_to", args, kwargs)
+    if d in ("numpy.divmod", "builtins.divmod") and len(args) == 2 and not kwargs:
+        q_ = binop(interp, ast.FloorDiv(), args[0], args[1], node)
+        r_ = binop(interp, ast.Mod(), args[0], args[1], node)
+        if q_ is not None and r_ is not None:
+            return TupleV([q_, r_])
+    if d in ("numpy.floor_divide", "numpy.mod", "numpy.remainder") and len(args) == 2 and not kwargs:
+        r_ = binop(interp, ast.FloorDiv() if d == "numpy.floor_divide" else ast.Mod(), args[0], args[1], node)
+        if r_ is not None:
+            return r_
     if d == "numpy.unravel_index" and len(args) == 2 and isinstance(args[1], TupleV) and all(isinstance(x, Num) for x in args[1].items):
         # C order: the last axis runs fastest.  idx_k = (p div (d_{k+1}*...*d_last)) mod d_k, written with nested div so that
         # x div m * m + x mod m can be recognised as x; the first axis is not reduced (numpy raises for indices out of bounds)
